@@ -27,7 +27,8 @@ Inductive cexpr : Type :=
                                                (* (first t1 r1 && r1 t2 r2 && ...): every middle operand is printed twice *)
 | CCond (c a b : cexpr)                        (* (c ? a : b) *)
 | CCast (ty : cty) (e : cexpr)                 (* static_cast<ty>(e) *)
-| CCall (f : text) (args : list cexpr)         (* f(a, b): abs / min / max are the Arduino macros *)
+| CCall (f : text) (args : list cexpr)         (* f(a, b): abs / min / max are the Arduino macros,
+                                                  __redu_floordiv / __redu_mod the emitter's helper templates *)
 | CString (e : cexpr)                          (* String(e) *)
 | CToNum (fl wrap : bool) (e : cexpr)          (* wrap: String(e).toInt() else (e).toInt(); fl: toFloat *)
 | CLen (e : cexpr)                             (* static_cast<int>(__redu_len(e)) *)
@@ -38,6 +39,9 @@ Definition t_abs : text := [97;98;115].
 Definition t_min : text := [109;105;110].
 Definition t_max : text := [109;97;120].
 Definition t_plus : text := [43].
+(* the helper templates the emitter adds for Python's // and % (emitter.FLOORDIV_HELPER_SNIPPET, MOD_HELPER_SNIPPET) *)
+Definition t_floordiv : text := [95;95;114;101;100;117;95;102;108;111;111;114;100;105;118].   (* __redu_floordiv *)
+Definition t_mod : text := [95;95;114;101;100;117;95;109;111;100].                               (* __redu_mod *)
 
 (* ---- printing ---- *)
 Definition cat (l : list text) : text := List.concat l.
@@ -45,12 +49,15 @@ Definition cat (l : list text) : text := List.concat l.
 Fixpoint sep_by (s : text) (l : list text) : text :=
   match l with [] => [] | [x] => x | x :: r => x ++ s ++ sep_by s r end.
 
-(* _escape_string_literal: backslash and double quote only *)
-Fixpoint escape (s : text) : text :=
-  match s with
-  | [] => []
-  | c :: r => if c =? 92 then 92 :: 92 :: escape r else if c =? 34 then 92 :: 34 :: escape r else c :: escape r
-  end.
+(* _escape_string_literal (as repaired by "fix: escape control characters in string literals"; the same function as
+   Lang/Escape.v of C06, which proves the round trip through the C++ lexer): backslash and double quote get a backslash,
+   LF / CR / TAB become the letter escapes n r t, every other code point below 0x20 and DEL three octal digits *)
+Definition esc_char (c : Z) : text :=
+  if c =? 92 then [92; 92] else if c =? 34 then [92; 34]
+  else if c =? 10 then [92; 110] else if c =? 13 then [92; 114] else if c =? 9 then [92; 116]
+  else if ((0 <=? c) && (c <? 32)) || (c =? 127) then [92; 48 + c / 64; 48 + (c / 8) mod 8; 48 + c mod 8]
+  else [c].
+Definition escape (s : text) : text := flat_map esc_char s.
 Definition quote (s : text) : text := 34 :: escape s ++ [34].
 
 (* str(x) of a Python float x, for the values where repr is the plain positional
